@@ -54,6 +54,9 @@ let parse_writes (s : string) : (z * z list) list =
 
 let enc_of arch oc = match arch with
   | "amd64" -> enc_amd64 oc
+  | "arm64" -> enc_arm64 false hI_FIXED
+  | "arm64p" -> enc_arm64 false hI_PINNED
+  | "arm64m" -> enc_arm64 true hI_FIXED
   | _ -> failwith ("unknown arch " ^ arch)
 
 module Monitor_glue = struct
@@ -170,6 +173,46 @@ let handle (t : string list) : string =
      injector lifetimes against the kernel answers observed in the implementation's run *)
   | ["life"; arch; oc; allp; reset; lifo; overlay; answers; symtab; lifetimes] ->
     life arch (oc = "1") (allp = "1") (reset = "1") (lifo = "1") overlay answers symtab lifetimes
+  (* a64dec <word-hex> : the Coq decoder's reading of one instruction word *)
+  | ["a64dec"; w] ->
+    (match adecode (zh w) with
+     | None -> "UNDEF"
+     | Some (AMOVZ (rd, imm, hw)) -> Printf.sprintf "MOVZ %d %d %d" (iz rd) (iz imm) (iz hw)
+     | Some (AMOVK (rd, imm, hw)) -> Printf.sprintf "MOVK %d %d %d" (iz rd) (iz imm) (iz hw)
+     | Some (ABR rn) -> Printf.sprintf "BR %d" (iz rn)
+     | Some (ARET rn) -> Printf.sprintf "RET %d" (iz rn)
+     | Some (AB i) -> Printf.sprintf "B %d" (iz i)
+     | Some ANOP -> "NOP"
+     | Some (AADRP (rd, i)) -> Printf.sprintf "ADRP %d %d" (iz rd) (iz i)
+     | Some (AADDI (rd, rn, i)) -> Printf.sprintf "ADDI %d %d %d" (iz rd) (iz rn) (iz i))
+  (* a64reach <writes> <entry> <dst> : execute the bytes the implementation wrote with the A64 semantics *)
+  | ["a64reach"; ws; entry; dst] ->
+    let m = List.fold_left (fun m (a, bs) -> write m a bs) mem0 (parse_writes ws) in
+    let regs0 = fun r -> Z.add (zh "7700000000000000") r in
+    let d = zh dst in
+    let rec go fuel steps (st : astate) =
+      if Z.eqb st.apc d then
+        let ch = List.filter (fun r -> not (Z.eqb (st.ax (zi r)) (regs0 (zi r)))) (List.init 31 (fun i -> i)) in
+        Printf.sprintf "REACHED %d [%s]" steps (String.concat "," (List.map (fun r -> "x" ^ string_of_int r) ch))
+      else if fuel = 0 then "TIMEOUT " ^ hz st.apc
+      else match adecode (afetch st.am st.apc) with
+        | None -> Printf.sprintf "STUCK %s %d" (hz st.apc) steps
+        | Some i -> go (fuel - 1) (steps + 1) (aexec st i) in
+    go 8 0 { apc = zh entry; ax = regs0; am = m }
+  (* a64bool <writes> <entry> : run until PC = x30's sentinel; report x0 *)
+  | ["a64bool"; ws; entry] ->
+    let m = List.fold_left (fun m (a, bs) -> write m a bs) mem0 (parse_writes ws) in
+    let regs0 = fun r -> Z.add (zh "7700000000000000") r in
+    let d = regs0 (zi 30) in
+    let rec go fuel (st : astate) =
+      if Z.eqb st.apc d then
+        let ch = List.filter (fun r -> not (Z.eqb (st.ax (zi r)) (regs0 (zi r)))) (List.init 31 (fun i -> i)) in
+        Printf.sprintf "RETURNED x0=%s [%s]" (hz (st.ax Z0)) (String.concat "," (List.map (fun r -> "x" ^ string_of_int r) ch))
+      else if fuel = 0 then "TIMEOUT " ^ hz st.apc
+      else match adecode (afetch st.am st.apc) with
+        | None -> Printf.sprintf "STUCK %s" (hz st.apc)
+        | Some i -> go (fuel - 1) (aexec st i) in
+    go 8 { apc = zh entry; ax = regs0; am = m }
   (* count <N> <panicking 0|1> <schedule: comma-separated <thread>r (the atomic RMW of a matching call) | <thread>l (a local step)> *)
   | ["count"; n; pk; sched] ->
     let sch = List.map (fun tk -> let l = String.length tk in
